@@ -17,7 +17,7 @@ def _jobs():
 
     jobs = []
     for dtype in ("float32", "float64"):
-        for thr in (False, 1, 2, 3, 5, 8, 16):
+        for thr in (False, 1, 2, 3, 4, 5, 7, 8, 16):
             if thr in (False, 1, 2, 3):
                 jobs.append(("allgens", dtype, thr, None))
             jobs.append(("sims0", dtype, thr, None))
@@ -107,7 +107,7 @@ def _warm_one(args):
             # marker counts used by C08 (end to end), C10 and C18 at dx = 1/16
             from sopht.numeric.immersed_boundary_ops import VirtualBoundaryForcing
 
-            for dim, ns in ((2, (7, 33)), (3, (7, 18, 33))):
+            for dim, ns in ((2, (7, 33, 5, 6, 15)), (3, (7, 18, 33, 5, 6, 20, 22))):  # incl. the rod grids of C18
                 for n in ns:
                     for reset in (True, False):
                         vbf = VirtualBoundaryForcing(1.0, 1.0, dim, real_t(0.0625), n, real_t, enable_eul_grid_forcing_reset=reset,
